@@ -5,7 +5,7 @@ cat > /tmp/dbgspec.json <<EOT
 {"property":"$P","tier":"$TIER","seed":$SEED,"start":$IDX,"count":1,"mode":"run","out":"/tmp/dbgout.jsonl","samples":1,"verbose":true}
 EOT
 rm -f /tmp/dbgout.jsonl
-GOMAXPROCS=1 GODEBUG=asyncpreemptoff=1,randautoseed=0 VERIF_SPEC=/tmp/dbgspec.json $S/harness/worker -test.run TestWorker -test.timeout 10m 2>&1 | tail -40
+(cd $S/harness && GOMAXPROCS=1 GODEBUG=asyncpreemptoff=1,randautoseed=0 VERIF_SPEC=/tmp/dbgspec.json ./worker -test.run TestWorker -test.timeout 10m 2>&1) | tail -40
 python3 - <<'EOT'
 import json
 for l in open('/tmp/dbgout.jsonl'):
